@@ -101,7 +101,15 @@ class LiteDRAMCrossbar(Module):
                 data_width    = port.data_width,
                 clock_domain  = clock_domain,
                 id            = port.id)
-            self.submodules += LiteDRAMNativePortCDC(new_port, port)
+            # The crossbar side strobes wdata.ready/rdata.valid unconditionally: the data FIFOs of the crossing must hold
+            # every command that can be in flight for this port (cmd FIFO + bank machine command buffers).
+            cmd_depth  = 4
+            in_flight  = cmd_depth + self.controller.settings.cmd_buffer_depth + 4
+            data_depth = max(16, 2**bits_for(in_flight - 1))
+            self.submodules += LiteDRAMNativePortCDC(new_port, port,
+                cmd_depth   = cmd_depth,
+                wdata_depth = data_depth,
+                rdata_depth = data_depth)
             port = new_port
 
         # Data width conversion --------------------------------------------------------------------
